@@ -26,8 +26,8 @@ MODULE = "IwModel.Props.C17"
 THEOREMS = [
     "IwModel.C17.unescape_safe", "IwModel.C17.unescape_two_pass", "IwModel.C17.unescape_shape_indep", "IwModel.C17.unescape_stores_within",
     "IwModel.C17.unescape_cstring_safe", "IwModel.C17.parse_key_safe", "IwModel.C17.ptr_parse_safe", "IwModel.C17.ptr_parse_cstring_safe",
-    "IwModel.C17.ftoa_safe", "IwModel.C17.ftoa_old_overrun", "IwModel.C17.atoi2_safe", "IwModel.C17.afcmp_safe", "IwModel.C17.hex2bin_safe",
-    "IwModel.C17.gen_side_conditions",
+    "IwModel.C17.ptr_all_slots_assigned", "IwModel.C17.ftoa_safe", "IwModel.C17.ftoa_old_overrun", "IwModel.C17.atoi2_safe",
+    "IwModel.C17.afcmp_safe", "IwModel.C17.hex2bin_safe", "IwModel.C17.revm_safe", "IwModel.C17.gen_side_conditions",
 ]
 
 H = lambda b: binascii.hexlify(bytes(b)).decode() or "-"
@@ -417,6 +417,137 @@ def case_hex(r):
     return Case("hex", ops, oracle)
 
 
+# ---------------------------------------------------------------- regex VM (modelled): programs come from the real compiler
+
+def gen_simple_regex(r, depth=0):
+    """(pattern, nullable): no anchors, no empty branches, and no quantifier on something that can match the empty
+    string — the corner where backtracking engines and a Pike VM differ — so python's `re` is an independent
+    reference for the match and its captures"""
+    out, nullable = [], True
+    for _ in range(r.randrange(1, 4)):
+        k = r.randrange(8 if depth < 2 else 5)
+        an = False
+        if k < 3:
+            a = bytes([r.choice(b"abc")])
+        elif k == 3:
+            a = b"."
+        elif k == 4:
+            a = r.choice([b"[ab]", b"[^a]", b"[a-c]", b"[^bc]", b"[b-c]"])
+        elif k < 7:
+            body, an = gen_simple_regex(r, depth + 1)
+            a = b"(" + body + b")"
+        else:
+            b1, n1 = gen_simple_regex(r, depth + 1)
+            b2, n2 = gen_simple_regex(r, depth + 1)
+            a, an = b"(" + b1 + b"|" + b2 + b")", n1 or n2
+        if not an:
+            q = r.choice([b"", b"", b"", b"?", b"*", b"+", b"{1,2}", b"{2}", b"{0,2}", b"??", b"*?", b"+?"])
+            a += q
+            an = q in (b"?", b"*", b"{0,2}", b"??", b"*?")
+        out.append(a)
+        nullable = nullable and an
+    return b"".join(out), nullable
+
+
+def prog_wf(toks):
+    """ReVm.Wf on the token form"""
+    n = len(toks)
+    if n == 0:
+        return False
+    for pc, tk in enumerate(toks):
+        c = tk[0]
+        if c == "M":
+            continue
+        if c == "S":
+            a, b = tk[1:].split(",")
+            if int(a) >= n or int(b) >= n:
+                return False
+        elif c == "J":
+            if int(tk[1:]) >= n:
+                return False
+        else:
+            if pc + 1 >= n or (c == "C" and int(tk[1:]) == 0):
+                return False
+    return True
+
+
+def vm_cases(ctx, h, r, npat, ntext):
+    pats = []
+    for _ in range(npat):
+        k = r.randrange(10)
+        if k < 5:
+            pats.append((gen_simple_regex(r)[0], True))
+        elif k < 9:
+            pats.append((gen_regex(r), False))
+        else:
+            pats.append((r.choice([b"a", b"^a", b"a$", b"^$", b"(a|b)*c", b"(a?){3}b", b"a{0}", b"(a*)*", b"(|a)+", b"[\x80-\xff]+", b"\xff", b"(((a)))", b"a|", b"|a", b"()",
+                                   b"(a)(b)(c)(d)(e)(f)(g)(h)", b".*", b".*?x", b"[^x]$", b"x*$", b"(a+)+b"]), False))
+    comp = [Case("recomp", ["recomp " + H(p)]) for p, _ in pats]
+    out, cr = run_batch([h], comp, timeout=300)
+    cases = []
+    for i, (p, simple) in enumerate(pats):
+        o = out.get(i)
+        ctx.hist("recomp")
+        if i in cr and o is None:
+            kind, fn = san_site(cr[i][1])
+            ctx.fail(dict(kind="crash", op="recomp", site=fn, what=kind), dict(case="recomp", ops=comp[i].ops, detail=[cr[i][1][-3000:]]), "recomp crashed: %s in %s" % (kind, fn))
+            continue
+        if not o or o[0] == "recomp fail":
+            ctx.hist("recomp-rejected")
+            continue
+        toks = o[0].split()[2:]
+        if len(toks) != int(o[0].split()[1]) or len(toks) > 1500:
+            continue
+        if not prog_wf(toks):
+            ctx.fail(dict(kind="oracle", op="recomp", cls="ill-formed-program"), dict(case="recomp", ops=comp[i].ops, impl=o),
+                     "the compiler emitted a program that is not well-formed (jump target / successor outside the program, or a NUL character instruction) for %r: %s" % (p, o[0][:300]))
+            continue
+        try:
+            ref = re.compile(p, re.S) if simple else None
+        except re.error:
+            ref = None
+        for _ in range(ntext):
+            txt = bytes(r.choice(b"abc") for _ in range(r.choice([0, 1, 2, 4, 8, 16]))) if simple or r.random() < 0.5 else \
+                bytes(r.choice(b"abcxyz01 _-.\x80\xc3\xe9\xff\x01") for _ in range(r.choice([0, 1, 3, 8, 20])))
+            nm = r.choice([0, 2, 2, 4, 6, 16, 20, 3])
+            tk = list(toks)
+            kind = "revm"
+            if not simple and r.random() < 0.25 and len(tk) > 2:
+                # damage the program inside the well-formedness condition: retarget jumps, reorder instructions
+                kind = "revm-mutated"
+                for _ in range(r.randrange(1, 4)):
+                    j = r.randrange(len(tk) - 1)
+                    m = r.randrange(4)
+                    if m == 0:
+                        tk[j] = "S%d,%d" % (r.randrange(len(tk)), r.randrange(len(tk)))
+                    elif m == 1:
+                        tk[j] = "J%d" % r.randrange(len(tk))
+                    elif m == 2:
+                        tk[j] = r.choice(["A", "B", "E", "V%d" % r.randrange(0, 70), "C%d" % r.randrange(1, 256), "K" + "ff" * 32, "N" + "00" * 32, "K" + "01" + "00" * 31])
+                    else:
+                        a, b = r.randrange(len(tk) - 1), r.randrange(len(tk) - 1)
+                        tk[a], tk[b] = tk[b], tk[a]
+                if not prog_wf(tk):
+                    continue
+            oracle = None
+            if ref is not None and kind == "revm":
+                def oracle(out2, ref=ref, txt=txt, nm=nm, p=p):
+                    w = out2[0].split()
+                    m = ref.search(txt)
+                    if (m is not None) != (w[1] == "1"):
+                        return "pattern %r on %r: VM says %s, reference says %s" % (p, txt, w[1], "match" if m else "no match")
+                    if m is not None:
+                        exp = []
+                        for g in range(0, min(nm // 2, ref.groups + 1)):
+                            exp += [m.start(g), m.end(g)]
+                        got = [int(x) for x in w[2:2 + len(exp)]]
+                        if got != exp:
+                            return "pattern %r on %r: captures %s, reference %s" % (p, txt, got, exp)
+                    return None
+            cases.append(Case(kind + ("-ref" if oracle else ""), ["revm %d %s %s" % (nm, H(txt), " ".join(tk))], oracle))
+    return cases
+
+
 MODELLED = [(case_unesc, 6), (case_key, 3), (case_ptr, 5), (case_ftoa, 4), (case_itoa, 1.5), (case_atoi2, 2), (case_afcmp, 3), (case_hex, 2)]
 
 # ================================================================ exploration (no model)
@@ -776,6 +907,7 @@ def explore(ctx, h, drv, n_mod, n_exp, label, fresh=60):
     exp = pick(r, EXPLORE, n_exp)
     for c in mod[:3] + exp[:3]:
         ctx.sample(dict(kind=c.kind, ops=[o[:200] for o in c.ops[:3]]))
+    mod += vm_cases(ctx, h, r, max(40, n_mod // 60), 6)
     # run A: after an adversarial history; modelled ops are diffed against the Lean driver
     a_mod, a_exp = with_history(mod, r), with_history(exp, r)
     probs = differential(ctx, [h], [drv, "c17"] if drv else None, a_mod, timeout=900)
